@@ -1126,6 +1126,157 @@ def parse_model_w(line):
     return d
 
 
+
+# ----------------------------------------------------------------------------------------------- directed probes
+def make_col(T, e, cache, **kw):
+    from sqlobject import col
+    if T == 'enum':
+        return col.EnumCol(enumValues=list(ENUM_VALUES), **kw)
+    if T in ('decimal', 'decimalString'):
+        return {'decimal': col.DecimalCol, 'decimalString': col.DecimalStringCol}[T](size=10, precision=3, **kw)
+    ctor = {'string': col.StringCol, 'unicode': col.UnicodeCol, 'int': col.IntCol, 'tinyInt': col.TinyIntCol,
+            'smallInt': col.SmallIntCol, 'mediumInt': col.MediumIntCol, 'bigInt': col.BigIntCol, 'bool': col.BoolCol,
+            'float': col.FloatCol, 'dateTime': col.DateTimeCol, 'date': col.DateCol, 'time': col.TimeCol,
+            'timestamp': col.TimestampCol, 'currency': col.CurrencyCol, 'blob': col.BLOBCol, 'pickle': col.PickleCol,
+            'uuid': col.UuidCol, 'json': col.JSONCol}[T]
+    return ctor(**kw)
+
+
+ALT_TYPES = [T for T in TYPES if T not in FK_TYPES]
+_alt = {}
+
+
+def alt_classes(e):
+    """per column kind: a class whose column is an alternateID (by<Col>()) and one with a unique DatabaseIndex on it"""
+    if _alt:
+        return _alt
+    from sqlobject import SQLObject, DatabaseIndex
+    conn = e['conns'][True]
+    for T in ALT_TYPES:
+        try:
+            a = type(sqlo.uniq('C01Alt%s' % T.capitalize()), (SQLObject,),
+                     {'_connection': conn, 'v': make_col(T, e, True, alternateID=True), 'w': make_col('int', e, True, default=7)})
+            a.createTable()
+            i = type(sqlo.uniq('C01Idx%s' % T.capitalize()), (SQLObject,),
+                     {'_connection': conn, 'v': make_col(T, e, True, default=None), 'w': make_col('int', e, True, default=7),
+                      'vIndex': DatabaseIndex('v', unique=True)})
+            i.createTable()
+            _alt[T] = (a, i)
+        except Exception as ex:
+            _alt[T] = 'declaration refused: %s: %s' % (type(ex).__name__, str(ex)[:80])
+    return _alt
+
+
+def directed_lookup(ctx, e):
+    """"a query for rows whose column equals that value finds the row" through the alternate-ID accessor by<Col>()
+    and through get() of a unique DatabaseIndex, for every column kind (witness of the repaired
+    C01:UuidCol:byAlternateID-refused-double-conversion: UuidCol lookups were refused)"""
+    once = Once(ctx)
+    classes = alt_classes(e)
+    for T in ALT_TYPES:
+        pair = classes[T]
+        col = COLNAME[T]
+        if isinstance(pair, str):
+            ctx.note('alternateID / unique index on %s: %s' % (col, pair))
+            continue
+        vals = []
+        for x in domain_values(T, ctx, 6):
+            if x is None or not in_domain(T, x) or any(same(x, y) and type(x) is type(y) for y in vals):
+                continue
+            if type(x) is float and engine_float(repr(x)) != x:
+                continue
+            vals.append(x)
+        vals = vals[:12]
+        for which, cls in (('by<Col>() of an alternateID column', pair[0]), ('get() of a unique index', pair[1])):
+            wipe(cls)
+            stored = []
+            for x in vals:
+                try:
+                    stored.append((x, cls(v=x).id))
+                except Exception:
+                    pass       # equal under the column's own encoding (UNIQUE), or refused: the main run's business
+            cls._connection.cache.clear()
+            for x, rid in stored:
+                desc = {'type': T, 'value': repr(x)[:120], 'entry': which}
+                ctx.case(('lookup', T, which, tok(x, T if T in ('json', 'pickle') else None)), kind='lookup/%s' % T)
+                try:
+                    got = cls.byV(x) if cls is pair[0] else cls.vIndex.get(x)
+                    res = 'row %r' % (got.id,)
+                    val = got.v
+                except Exception as ex:
+                    got = None
+                    res = 'raises %s: %s' % (type(ex).__name__, str(ex)[:80])
+                    if T == 'uuid' and exc_kind(ex) == 'Invalid':
+                        once.oracle_fail('C01:UuidCol:byAlternateID-refused-double-conversion',
+                                         'UuidCol: %s for the stored value %r %s' % (which, x, res), desc)
+                        continue
+                if got is None or got.id != rid:
+                    once.oracle_fail('C01:%s:%s does not find the row' % (col, which),
+                                     '%s: the row holding %r (id %r) looked up through %s: %s' % (col, x, rid, which, res), desc)
+                elif not same(val, x) or (type(val) is not type(x) and T not in ('pickle', 'json')):
+                    once.oracle_fail('C01:%s:%s returns an altered value' % (col, which),
+                                     '%s: looked up %r through %s, the instance shows %r' % (col, x, which, val), desc)
+
+
+RESERVED_EXTRA = ['q', 'j', 'sqlmeta', '_connection', 'dirty', 'expired', 'lazyUpdate', 'cacheValues', 'columns', 'childName',
+                  '_SO_val_w', 'wID', 'instanceName', 'soClass']
+
+
+def directed_names(ctx, e):
+    """a column may be named like something SQLObject itself puts on the class or the instance: the declaration must
+    be refused loudly (at class creation or at first use) or the column must round-trip.  Exhaustive over
+    dir(SQLObject), the attributes of an instance, and a few names of sqlmeta."""
+    from sqlobject import SQLObject, col
+    once = Once(ctx)
+    conn = e['conns'][True]
+    probe = e['classes'][('int', 'eager', True)]
+    wipe(probe)
+    inst = probe(v=None)
+    names = sorted(set([n for n in dir(SQLObject) if not n.startswith('__')] + [n for n in vars(inst) if not n.startswith('__')]
+                       + RESERVED_EXTRA) - {'id'})
+    wipe(probe)
+    silent = []
+    for n in names:
+        ctx.case(('colname', n), kind='colname')
+        try:
+            cls = type(sqlo.uniq('C01Name'), (SQLObject,), {'_connection': conn, n: col.IntCol(default=None), 'w': col.IntCol(default=7)})
+            cls.createTable()
+        except BaseException as ex:
+            if not isinstance(ex, Exception):
+                raise
+            continue                  # refused loudly at class creation
+        try:
+            o = cls(**{n: 5})
+            rid = o.id
+            seen = [('writer after create', getattr(o, n))]
+            setattr(o, n, 6)
+            seen.append(('writer after assignment', getattr(o, n)))
+            raw = conn.queryOne('SELECT * FROM %s WHERE id = %d' % (cls.sqlmeta.table, rid))
+            conn.cache.clear()
+            f = cls.get(rid)
+            seen.append(('fresh', getattr(f, n)))
+            found = cls.selectBy(**{n: 6}).count()
+            wval = f.w
+        except Exception:
+            continue                  # loud at first use
+        expect = [5, 6, 6]
+        got = [x[1] for x in seen]
+        ok = all(type(g) is int and g == x for g, x in zip(got, expect)) and found == 1 and wval == 7 and 6 in raw[1:]
+        if not ok:
+            silent.append(n)
+            what = ('a column named %r is accepted without any error but does not round-trip: wrote 5 then 6; %s; raw row %r; '
+                    'selectBy(%s=6) finds %r row(s); the other column w shows %r (7 was stored)'
+                    % (n, ', '.join('%s shows %s' % (k, repr(val)[:40]) for k, val in seen), raw, n, found, wval))
+            desc = {'column name': n}
+            if n in ('q', 'j'):
+                once.oracle_fail('C01:column-named-q-or-j-shadowed', what, desc)
+            elif n.startswith('_SO_'):
+                # a name in SQLObject's own private naming scheme: recorded, not raised (see the final report)
+                ctx.note('column name in the private _SO_ scheme silently collides: ' + what)
+            else:
+                once.oracle_fail('C01:column-named-%s-silently-broken' % n, what, desc)
+    ctx.count('colname/silent', len(silent))
+
 # ----------------------------------------------------------------------------------------------- run
 def corpus_cases():
     import glob
@@ -1366,6 +1517,13 @@ def run(ctx):
     for T, v in WITNESSES:
         out, cls, obj = run_case(e, T, v, 'setattr', 'eager', True)
         oracle(ctx, e, T, v, 'setattr', 'eager', True, out, cls)
+    # ---- directed probes: alternate-ID / unique-index lookups, column names that collide with SQLObject's own
+    for probe in (directed_lookup, directed_names):
+        try:
+            probe(ctx, e)
+        except Exception as ex:      # a crash of the real code inside a probe is an outcome to look at, not a harness crash
+            ctx.oracle_fail('C01:directed probe %s crashed' % probe.__name__, '%s: %s' % (type(ex).__name__, str(ex)[:200]),
+                            {'probe': probe.__name__})
 
 
 WITNESSES = [('float', 2 ** 53 + 1),   # C01_accepted_readable_full_FALSE
